@@ -7,13 +7,14 @@ Local Open Scope N_scope.
 Record hst := { rem : list byte; out : list byte (* reversed *) }.
 Section Honest.
 Context {A : Type}.
-Variables (bufsize : N) (rule : eofrule).
+Variables (bufsize : N) (rule : eofrule) (hint : N).
 Hypothesis bufsize_pos : 0 < bufsize.
 
 Definition hans (h : hst) (c : hcall) : hanswer c * hst :=
   match c return hanswer c * hst with
   | HRead n => (RBytes (firstn (N.to_nat n) (rem h)), {| rem := skipn (N.to_nat n) (rem h); out := out h |})
   | HWrite d => (Z.of_nat (length d), {| rem := rem h; out := rev d ++ out h |})
+  | HHint => (hint, h)
   end.
 Fixpoint exec {A} (h : hst) (p : prog A) : A * hst :=
   match p with Ret a => (a, h) | Do c k => let '(a, h') := hans h c in exec h' (k a) end.
@@ -112,13 +113,13 @@ Qed.
 
 (* ===== the generic theorem: any decoder written over the source agrees under both interpretations ===== *)
 Theorem buffered_refines_ideal : forall (p : sprog A) i b h, R i b h ->
-  let '(r1, i') := ideal rule p i in
+  let '(r1, i') := ideal rule hint p i in
   let '((r2, _), h') := exec h (buffered bufsize rule p b) in
   r1 = r2 /\ iout i' = out h'.
 Proof.
   induction p as [a|c k IH]; intros i b h HR.
   - cbn. split; [reflexivity|apply HR].
-  - destruct c as [| |n|d]; cbn [ideal buffered].
+  - destruct c as [| |n|d|]; cbn [ideal buffered].
     + match goal with |- context [b_next _ _ _ ?K] => pose proof (sim_next i b h K HR) as S end.
       destruct (ideal_next rule i) as [[x i']|e].
       * destruct S as (b' & h' & E & R'). rewrite E. apply IH. exact R'.
@@ -138,5 +139,6 @@ Proof.
       * destruct S as (h' & E & Ho); [destruct (bbuf b); lia|]. rewrite E. cbn [exec]. split; [reflexivity|exact Ho].
     + cbn [exec hans]. rewrite Z.eqb_refl. apply IH.
       destruct HR as (Hr & Ho & He & Hs). unfold R; cbn. rewrite Ho, ?rev_append_rev. repeat split; auto.
+    + cbn [exec hans]. apply IH. exact HR.
 Qed.
 End Honest.
